@@ -30,7 +30,17 @@ Clauses (each its own bounded group):
                     sees a FALSY stored bound - the empty string / empty bytes, the minimum of every text or bytes
                     chunk that holds '' / b'' - being mistaken for an absent one.
 
-Scenario class added for that clause (dtypes `<text|bytes>+empties`): text (str / object / string dtype) and
+  c04.stats.stable  statistics of a handle are not changed by queries: on ONE handle, sorted_partitioned_columns(h,
+                    filters=F1) - F1 selecting a strict, non-empty subset of the row groups -, then h.statistics,
+                    sorted_partitioned_columns(h), sorted_partitioned_columns(h, filters=F2) and h.statistics again
+                    each equal the answer of a FRESH handle of the same dataset (F1 / F2 are built from the exposed
+                    bounds of a column and kept when a fresh handle's filter_row_groups selects such a subset).
+
+Scenario class `<text|bytes>+long`: text / bytes cells of 75 .. 205 bytes that share their first 70 bytes (long URLs)
+and differ only behind them, statistics forced on, every option tuple (several row groups): the stored max / min must
+be the real extremes (in particular max >= every stored value under byte-wise order), not a prefix of them.
+
+Scenario class added for the exposed clause (dtypes `<text|bytes>+empties`): text (str / object / string dtype) and
 bytes columns whose leading third of the rows is '' / b'' and whose other values are non-empty, so that under
 the row-group splits of the option tuples there are chunks with min == max == '' (all-empty chunk), chunks with
 min == '' < max, all-empty single-row-group files, the same next to nulls, and - with ascending value order - a
@@ -57,7 +67,8 @@ from spec import thrift_idl
 
 G_RAW, G_USER, G_SORTED = "c04.stats.raw", "c04.stats.user", "c04.stats.sorted"
 G_EXPOSED = "c04.stats.exposed"
-GROUPS = (G_RAW, G_USER, G_SORTED, G_EXPOSED)
+G_STABLE = "c04.stats.stable"
+GROUPS = (G_RAW, G_USER, G_SORTED, G_EXPOSED, G_STABLE)
 CONTRACT = {
     G_RAW: "ensure(write): for every row group x column the footer Statistics (decoded independently) carry "
            "min/max == oracle(min/max of the stored non-null values under the Parquet order of the type) or no "
@@ -65,6 +76,10 @@ CONTRACT = {
     G_USER: "ensure(write): every non-None entry of ParquetFile.statistics['min'|'max'|'null_count'] equals the oracle",
     G_SORTED: "ensure(write): c in sorted_partitioned_columns(pf) => data of c is strictly increasing across row "
               "groups and the listed min/max equal the oracle",
+    G_STABLE: "ensure(write): on one handle h, after sorted_partitioned_columns(h, filters=F1) with F1 selecting a strict "
+              "subset of the row groups: h.statistics == fresh.statistics, sorted_partitioned_columns(h) == the fresh "
+              "handle's, sorted_partitioned_columns(h, filters=F2) == the fresh handle's (queries do not change what a "
+              "handle reports)",
     G_EXPOSED: "ensure(write): for every column and which in (min, max): every row group's chunk carries a decodable "
                "`which` (an EMPTY byte string is a bound like any other) => ParquetFile.statistics[which][column] has "
                "one non-None entry per row group; and stored min <= max per group with max[i] < min[i+1] for all i "
@@ -132,8 +147,34 @@ EMPTIES = "+empties"
 EMPTY_BOUND_DTYPES = [d + EMPTIES for d in ("str", "object_str", "string", "bytes")]
 
 
+LONG = "+long"
+LONG_VALUE_DTYPES = [d + LONG for d in ("str", "object_str", "string", "bytes")]
+LONG_PREFIX = "https://example.org/" + "p" * 50          # 70 bytes shared by every cell
+
+
 def base_dtype(dt):
-    return dt[:-len(EMPTIES)] if dt.endswith(EMPTIES) else dt
+    for suffix in (EMPTIES, LONG):
+        if dt.endswith(suffix):
+            return dt[:-len(suffix)]
+    return dt
+
+
+def long_series(dtype, n, nulls):
+    """Text / bytes cells of 75..205 bytes with a common 70-byte prefix, differing only behind it."""
+    base = base_dtype(dtype)
+    vals = [LONG_PREFIX + "/%04d" % ((i * 7919) % 1009) + "é" * (i % 5) + "x" * ((i * 13) % 127) for i in range(n)]
+    if base == "bytes":
+        vals = [v.encode("utf8") for v in vals]
+    s = pd.Series(vals, dtype={"str": "str", "string": "string"}.get(base, object))
+    m = D.null_mask(n, nulls)
+    if m.any():
+        if base in ("object_str", "bytes"):
+            s = s.copy()
+            s[m] = None
+        else:
+            s = s.mask(m)
+    s.name = "x"
+    return s
 
 
 def empties_series(dtype, n, nulls):
@@ -158,8 +199,9 @@ def empties_series(dtype, n, nulls):
 
 
 def base_frame(f):
-    if f["dtype"].endswith(EMPTIES):
-        df = pd.DataFrame({"x": empties_series(f["dtype"], f["rows"], f.get("nulls", "none"))})
+    if f["dtype"].endswith((EMPTIES, LONG)):
+        mk = empties_series if f["dtype"].endswith(EMPTIES) else long_series
+        df = pd.DataFrame({"x": mk(f["dtype"], f["rows"], f.get("nulls", "none"))})
         if f.get("index", "range") != "range":
             df.index = D.make_index(f["index"], f["rows"])
         return df
@@ -337,11 +379,91 @@ def written_frame(df, write_index):
     return out, idx
 
 
+def _canon_answer(x):
+    """statistics / sorted_partitioned_columns answer -> comparable plain structure"""
+    if isinstance(x, dict):
+        return {str(k): _canon_answer(v) for k, v in x.items()}
+    if isinstance(x, (list, tuple)):
+        return [_canon_answer(v) for v in x]
+    if x is None:
+        return None
+    k, v = _canon_scalar(x)
+    if k == "float" and v != v:
+        return ("float", "nan")
+    if k == "other":
+        return ("other", repr(v))
+    return (k, v)
+
+
+def subset_filters(fp, path, user, nrg):
+    """Filters built from the exposed bounds that select a strict, non-empty subset of the row groups ON A FRESH
+    HANDLE (candidates that raise or select nothing / everything are dropped).  -> [(filters, selected indices)]"""
+    out, seen = [], set()
+    if nrg < 2:
+        return out
+    fresh = fp.ParquetFile(path)
+    for c in user.get("min", {}):
+        lo, hi = user["min"].get(c), user["max"].get(c)
+        if not lo or not hi or len(lo) != nrg or len(hi) != nrg or any(v is None for v in lo + hi):
+            continue
+        for F in ([(c, "<=", hi[0])], [(c, ">=", lo[-1])], [(c, "==", lo[nrg // 2])], [(c, ">", hi[0])], [(c, "<", lo[-1])]):
+            try:
+                sel = tuple(fp.api.filter_row_groups(fresh, F, as_idx=True))
+            except Exception:
+                continue
+            if 0 < len(sel) < nrg and sel not in seen:
+                seen.add(sel)
+                out.append((F, sel))
+        if len(out) >= 3:
+            break
+    return out
+
+
+def check_stable(fp, path, user, nrg, region=None):
+    """-> (None | what differs, number of comparisons).  region['collapsed'] = True when the case lies in the region
+    of the known defect "min/max list of a column collapsed to [None] + filters selecting a row group of index >= 1"."""
+    cands = subset_filters(fp, path, user, nrg)
+    if not cands:
+        return None, 0
+    api = fp.api
+    collapsed = any(isinstance(l, list) and len(l) != nrg for st in ("min", "max") for l in user.get(st, {}).values())
+    if region is not None:
+        region["collapsed"] = collapsed and any(max(sel) >= 1 for _, sel in cands)
+    ref_stats = _canon_answer(fp.ParquetFile(path).statistics)
+    ref_spc = _canon_answer(api.sorted_partitioned_columns(fp.ParquetFile(path)))
+    n = 0
+    for k, (F1, sel1) in enumerate(cands):
+        F2, sel2 = cands[(k + 1) % len(cands)]
+        h = fp.ParquetFile(path)
+        first = _canon_answer(api.sorted_partitioned_columns(h, filters=F1))
+        want1 = _canon_answer(api.sorted_partitioned_columns(fp.ParquetFile(path), filters=F1))
+        want2 = _canon_answer(api.sorted_partitioned_columns(fp.ParquetFile(path), filters=F2))
+        steps = [("sorted_partitioned_columns(h, filters=F1)", first, want1),
+                 ("h.statistics after it", lambda: _canon_answer(h.statistics), ref_stats),
+                 ("sorted_partitioned_columns(h) after it", lambda: _canon_answer(api.sorted_partitioned_columns(h)), ref_spc),
+                 ("sorted_partitioned_columns(h, filters=F2) after it",
+                  lambda: _canon_answer(api.sorted_partitioned_columns(h, filters=F2)), want2),
+                 ("sorted_partitioned_columns(h, filters=F1) again",
+                  lambda: _canon_answer(api.sorted_partitioned_columns(h, filters=F1)), want1),
+                 ("h.statistics at the end", lambda: _canon_answer(h.statistics), ref_stats)]
+        for label, got, want in steps:
+            try:
+                got = got() if callable(got) else got
+            except Exception as e:
+                return f"F1={F1!r} (row groups {list(sel1)}), F2={F2!r}: {label} raised {type(e).__name__}: {str(e)[:100]}", n
+            n += 1
+            if got != want:
+                return (f"F1={F1!r} selects row groups {list(sel1)} of {nrg}, F2={F2!r} selects {list(sel2)}: {label} differs "
+                        f"from a fresh handle's answer: {str(got)[:160]} != {str(want)[:160]}"), n
+    return None, n
+
+
 def check_statistics(fp, path, df, options):
     """-> dict clause -> None | what differs, plus counters."""
     idl = thrift_idl.load()
     hive = options.get("file_scheme", "simple") != "simple"
-    verdict = {G_RAW: None, G_USER: None, G_SORTED: None, G_EXPOSED: None, "compared": 0, "listed": 0, "exposed": 0}
+    verdict = {G_RAW: None, G_USER: None, G_SORTED: None, G_EXPOSED: None, G_STABLE: None, "compared": 0, "listed": 0,
+               "exposed": 0, "stable": 0}
     cols, idx_cols = written_frame(df, options.get("write_index"))
     fmd, _ = thrift_idl.dec(idl, "FileMetaData", read_footer(path, hive), strict=False)
     schema = {se["name"].decode() if isinstance(se["name"], bytes) else se["name"]: se for se in fmd["schema"][1:]}
@@ -491,6 +613,13 @@ def check_statistics(fp, path, df, options):
                             verdict[G_EXPOSED] = (f"{name!r}: listed {which} {spc[name][which]!r} differ from the "
                                                   f"stored {[d[which][1] for d in decs]!r}")
                             break
+    # -- stable clause: queries on a handle do not change what it reports (own handles; `pf` is left alone)
+    region = {}
+    try:
+        verdict[G_STABLE], verdict["stable"] = check_stable(fp, path, user, len(rgs), region)
+    except Exception as e:
+        verdict[G_STABLE] = f"repeated queries on one handle: {type(e).__name__}: {str(e)[:160]}"
+    verdict["collapsed_stat_list"] = bool(region.get("collapsed"))
     # -- sorted clause
     verdict["listed"] = len(spc)
     for name, bounds in spc.items():
@@ -571,6 +700,8 @@ def run_case(fp, features, scratch):
         res[g] = verdict.get(g)
     res["compared"], res["listed"] = verdict.get("compared", 0), verdict.get("listed", 0)
     res["exposed"] = verdict.get("exposed", 0)
+    res["stable"] = verdict.get("stable", 0)
+    res["collapsed_stat_list"] = verdict.get("collapsed_stat_list", False)
     res["user_compared"] = verdict.get("user_compared", 0)
     res["evaluations"] = verdict.get("evaluations", 0)
     res["cat_order"] = cat_order_feature(df, kwargs)
@@ -714,6 +845,14 @@ def enumerate_cases(tier, seed=0):
                                                            shapes[(k * 7 + 3 * di + 1) % len(shapes)]]):
                 cases.append({"dtype": dt, "rows": n, "nulls": p, "index": "range",
                               **dict(o, stats=True if o["stats"] == "auto" else o["stats"])})
+    # text / bytes cells LONGER than 64 bytes sharing a 70-byte prefix: statistics switched on, every option tuple
+    for di, dt in enumerate(LONG_VALUE_DTYPES):
+        shapes = [(n, p) for n in rows for p in D.null_patterns(base_dtype(dt), n)]
+        for k, o in enumerate(opts):
+            for n, p in (shapes if tier == "thorough" else [shapes[(k * 5 + di) % len(shapes)],
+                                                           shapes[(k * 7 + 3 * di + 1) % len(shapes)]]):
+                cases.append({"dtype": dt, "rows": n, "nulls": p, "index": "range",
+                              **dict(o, stats=True if o["stats"] == "auto" else o["stats"])})
     for name in ("mixed_all", "mixed_num", "mixed_obj", "mixed_time"):
         for n in ([9, 65] if tier == "quick" else [1, 9, 65, 8193]):
             for p in ("none", "some", "all"):
@@ -797,7 +936,7 @@ def run_cases(cases, workers=None):
             yield c, r
         elif kind == "crash":
             yield c, {"status": "fail", G_RAW: "interpreter crashed during write / statistics: " + r, G_USER: None,
-                      G_SORTED: None, G_EXPOSED: None, "exposed": 0, "compared": 0, "listed": 0, "user_compared": 0, "evaluations": 1, "cat_order": "-"}
+                      G_SORTED: None, G_EXPOSED: None, G_STABLE: None, "exposed": 0, "stable": 0, "compared": 0, "listed": 0, "user_compared": 0, "evaluations": 1, "cat_order": "-"}
         else:
             yield c, {"status": "engine", "what": r}
 
@@ -811,7 +950,10 @@ RULE = ("single-column frames over the dtypes of C01's quantifier except {excl} 
         "x value order; plus 4 mixed multi-column frames x all tuples and frames with stored int/str/datetime/multi "
         "indexes; plus text/bytes columns with EMPTY values ({ne} dtypes '<str|object_str|string|bytes>+empties': leading "
         "third of the rows '' / b'', so that chunks with min == max == '' and chunks with min == '' < max occur, with "
-        "and without nulls) x every option tuple with stats forced on (True / list). BOUND: rows <= 8193, <= 8 columns. "
+        "and without nulls) x every option tuple with stats forced on (True / list); plus text/bytes cells of 75..205 bytes "
+        "sharing a 70-byte prefix ('<...>+long') likewise; clause stable: per case up to 3 filters built from the exposed "
+        "bounds that select a strict subset of the row groups, 6 repeated queries on one handle each compared with a "
+        "fresh handle. BOUND: rows <= 8193, <= 8 columns. "
         "Non-trivial when at least one min/max was compared (raw/user), at least one column was listed (sorted), at "
         "least one stored bound had to be exposed (exposed).")
 
@@ -843,9 +985,10 @@ def run_bounded(ctx):
         feats = dict(features)
         feats["cat_order"] = res["cat_order"]
         feats["empty_bound"] = res.get("empty_bound", "-")
+        feats["collapsed_stat_list"] = bool(res.get("collapsed_stat_list", False))
         for g in GROUPS:
             nontrivial = {G_RAW: res["compared"], G_USER: res.get("user_compared", 0), G_SORTED: res["listed"],
-                          G_EXPOSED: res.get("exposed", 0)}[g] > 0
+                          G_EXPOSED: res.get("exposed", 0), G_STABLE: res.get("stable", 0)}[g] > 0
             with Case(ctx, g, feats, snippet=make_snippet(features, g), nontrivial=nontrivial, contract=CONTRACT[g]) as c:
                 if res.get(g):
                     c.fail(res[g])
